@@ -2,6 +2,7 @@
 CONSTANTS
   Threads <- T3
   Keys <- K3
+  DirectKeys = {}
   DepsOpts <- G_mc
   LoadsOpts <- W3_1
   SharedOpts = {TRUE, FALSE}
